@@ -32,7 +32,7 @@ ASSUMPTIONS = [
 ]
 TRUSTED = ["pydantic 2.x (executed)", "json (executed)", "vt.sym explorer"]
 BOUNDS = {"parameters": "<= 3 quick, <= 4 thorough", "value classes per kind": "2-3", "serializer": "bundled JSON"}
-REQUIRED_COVERS = ["converted", "not_convertible_unchanged", "unannotated_unchanged", "validate_off", "keyword", "positional", "kwonly", "dep", "model", "none_value", "second_message"]
+REQUIRED_COVERS = ["converted", "not_convertible_unchanged", "unannotated_unchanged", "validate_off", "keyword", "positional", "kwonly", "dep", "model", "none_value", "second_message", "varkw"]
 
 
 class PModel(pydantic.BaseModel):
@@ -82,7 +82,7 @@ def _dep() -> int:
     return 99
 
 
-def build_function(kinds: List[str], kwonly_from: int, rec: Dict[str, Any]) -> Any:
+def build_function(kinds: List[str], kwonly_from: int, rec: Dict[str, Any], varkw: bool = False) -> Any:
     from taskiq import TaskiqDepends
 
     ann = {"plain": "", "any": ": Any", "int": ": int", "str": ": str", "model": ": PModel", "dc": ": DC", "dep": ": int", "float": ": float", "modeld": ": PDefaults"}
@@ -92,6 +92,8 @@ def build_function(kinds: List[str], kwonly_from: int, rec: Dict[str, Any]) -> A
             parts.append("*")
         default = " = TaskiqDepends(_dep)" if k == "dep" else ""
         parts.append(f"p{i}{ann[k]}{default}")
+    if varkw:
+        parts.append("**extra")
     src = f"async def task_fn({', '.join(parts)}):\n    rec.update(locals())\n    return 1\n"
     ns = {"Any": Any, "PDefaults": PDefaults, "PModel": PModel, "DC": DC, "TaskiqDepends": TaskiqDepends, "_dep": _dep, "rec": rec}
     exec(src, ns)  # noqa: S102
@@ -127,8 +129,11 @@ def harness(c: sym.Ctx, case: Dict[str, Any]) -> None:
             break
     npos = c.choose(list(range(0, max_pos + 1)), "npos")
     validate = c.flag("validate")
+    varkw = c.flag("accepts_arbitrary_keywords")
+    # keyword names and string values with surrounding whitespace / odd characters must arrive untouched
+    EXTRA = {" spaced ": " v ", "spaced": 1, "dotted.name": [" x "]}
     rec: Dict[str, Any] = {}
-    fn, src = build_function(kinds, kwonly_from if kwonly_from < n else -1, rec)
+    fn, src = build_function(kinds, kwonly_from if kwonly_from < n else -1, rec, varkw)
     lab = Lab(c)
     try:
         from taskiq.compat import parse_obj_as
@@ -141,6 +146,9 @@ def harness(c: sym.Ctx, case: Dict[str, Any]) -> None:
         recv = Receiver(broker, executor=InlineExecutor(), run_startup=False, max_async_tasks=None, validate_params=validate)
         args = [VALUES[kinds[i]][vals[i]][1] for i in pos_capable[:npos]]
         kwargs = {f"p{i}": VALUES[kinds[i]][vals[i]][1] for i in passable if i not in pos_capable[:npos]}
+        if varkw:
+            c.cover("varkw")
+            kwargs.update(EXTRA)
         msg = AsyncKicker("t", broker, {}).with_task_id("id0")._prepare_message(*args, **kwargs)
         wire = broker.formatter.dumps(msg)
         decoded = broker.formatter.loads(wire.message)
@@ -193,6 +201,9 @@ def harness(c: sym.Ctx, case: Dict[str, Any]) -> None:
     if res is None or res.is_err:
         return
     c.cover("validate_off" if not validate else "converted")
+    if varkw:
+        got_extra = rec.get("extra", "<missing>")
+        c.check(got_extra == EXTRA and list(got_extra) == list(EXTRA), "arbitrary_keyword_arguments_arrive_under_their_own_names", got=got_extra, want=EXTRA)
     if npos:
         c.cover("positional")
     if kwargs:
